@@ -45,7 +45,7 @@ def config_binding(ctx, orig, wd):
     rows = []
     others = orig["other"]
     for p in orig["nonce"]:
-        for sd in (seeds if ctx.thorough() else rnd.sample(seeds, 3)):
+        for sd in (seeds if ctx.thorough() else sorted(set(rnd.sample(seeds, 3)) | {0})):
             q = dict(p)
             if rnd.random() < 0.5:      # combine with a random assignment of the other fields
                 o = rnd.choice(others)
@@ -65,6 +65,25 @@ def config_binding(ctx, orig, wd):
     got = vlib.read_ndjson(pout)
     if len(got) != len(rows):
         raise Inconclusive("driver returned %d of %d configurations" % (len(got), len(rows)))
+    # the same originals on "another host" (private UTS namespace, other host name): with an explicit seed the effective pattern must
+    # be the same there - a pattern is shared between machines by sharing its seed
+    pout2 = os.path.join(wd, "cfg_otherhost.ndjson")
+    rc2, log2, _ = vlib.go_test("./c16/", "TestConfigs$", env={"VERIF_IN": pin, "VERIF_OUT": pout2}, timeout=900, hostname="verif-other-host")
+    if rc2 == 0 and os.path.exists(pout2):
+        got2 = vlib.read_ndjson(pout2)
+        if len(got2) == len(got):
+            differ_unseeded = 0
+            for g, g2 in zip(got, got2):
+                if g["o"].get("seed", -1) != -1 and g["err"] == "" and g["e"] != g2["e"]:
+                    g["det"] = False
+                    g["note"] = "effective pattern differs on a host with another name"
+                elif g["o"].get("seed", -1) == -1 and g["e"] != g2["e"]:
+                    differ_unseeded += 1
+            ctx.coverage["compared_across_host_names"] = len(got)
+            ctx.coverage["unseeded_patterns_that_differ_across_hosts"] = differ_unseeded
+            vlib.write_ndjson(pout, got)
+    else:
+        ctx.notes.append("second host name not available (unshare --uts failed); cross-host comparison skipped")
     ctx.coverage["evaluations"] += len(got)
     ctx.coverage["distinct_nontrivial"] += len(rows)
     ctx.sample({"kind": "original -> effective (real NewConfig)", "record": got[len(got) // 2]})
